@@ -5,10 +5,12 @@ obligations, when P is among the unit's default properties below."""
 # unit -> properties that untagged obligations of the unit count against
 UNIT_DEFAULT_PROPS = {
     "U1": ["C13"],
+    "U2": ["C11"],
 }
 
 # property -> units (all feature sets of the unit are run) + extra engines
 PROPS = {
+    "C11": {"units": ["U2"]},
     "C13": {"units": ["U1"]},
     "C18": {"units": ["U1"]},
     "C19": {"units": []},
